@@ -4,7 +4,7 @@ import json, os, subprocess, sys, time
 d = os.path.abspath(sys.argv[1]); pids = sys.argv[2:]
 st = subprocess.run(['git', '-C', '/repo', 'status', '--porcelain'], capture_output=True, text=True).stdout.strip()
 assert not st, 'repo not clean: ' + st
-subprocess.check_call(['git', '-C', '/repo', 'apply', os.path.join(d, 'patch.diff')])
+subprocess.check_call(['git', '-C', '/repo', 'apply', (os.path.join(d, 'patch_on_fixed_head.diff') if os.path.exists(os.path.join(d, 'patch_on_fixed_head.diff')) else os.path.join(d, 'patch.diff'))])
 out = {}
 try:
     for pid in pids:
